@@ -102,6 +102,10 @@ func modelProgram(prog []refmodel.Stmt, strict bool) *mResult {
 				if s.Via == "slash" {
 					own += "/"
 				}
+				if s.Via == "dyn" {
+					// the variable comes right behind the group prefix: all such routes of a group share their literal head
+					own = "/{id}" + own
+				}
 				if s.Via == "echo" {
 					// the route's own path starts with the text of the enclosing groups' prefix
 					own = prefix + own
@@ -255,6 +259,9 @@ func execProgram(prog []refmodel.Stmt, sentinel, strict bool, more ...func(*rux.
 					if s.Via == "slash" {
 						path += "/"
 					}
+					if s.Via == "dyn" {
+						path = "/{id}" + path
+					}
 					if s.Via == "echo" {
 						path = gprefix + path
 					}
@@ -328,7 +335,7 @@ func progString(prog []refmodel.Stmt) string {
 				w(s.Body)
 				sb.WriteString("}")
 			case "route":
-				fmt.Fprintf(&sb, "Route%s(mw=%d,laterUse=%d)", map[string]string{"": "", "any": ":Any", "attach": ":NewRoute+Use+AttachTo", "echo": ":own-path-repeats-the-group-prefix", "slash": ":path-ends-in-a-slash", "dup": ":registered-a-second-time-for-the-same-method-and-path"}[s.Via], s.K, s.K2)
+				fmt.Fprintf(&sb, "Route%s(mw=%d,laterUse=%d)", map[string]string{"": "", "any": ":Any", "attach": ":NewRoute+Use+AttachTo", "echo": ":own-path-repeats-the-group-prefix", "slash": ":path-ends-in-a-slash", "dup": ":registered-a-second-time-for-the-same-method-and-path", "dyn": ":path-begins-with-a-variable"}[s.Via], s.K, s.K2)
 			case "controller", "resource":
 				fmt.Fprintf(&sb, "%s(%q,mw=%d)", s.Kind, s.Prefix, s.K)
 			default:
@@ -723,6 +730,14 @@ func progSpecials() [][]refmodel.Stmt {
 			[]refmodel.Stmt{g("/g", 2, use, dup), g("/h", 0, dup)},
 		)
 	}
+	// dynamic routes under group prefixes of two segments that are opened, left and opened again
+	dyn := refmodel.Stmt{Kind: "route", K: 0, Via: "dyn"}
+	dyn1 := refmodel.Stmt{Kind: "route", K: 1, K2: 1, Via: "dyn"}
+	out = append(out,
+		[]refmodel.Stmt{g("/api/v1", 0, dyn), g("/api/v2", 0, dyn), g("/api/v1", 0, dyn), dyn},
+		[]refmodel.Stmt{g("/api/v1", 1, dyn1, dyn), g("/api/v2", 1, dyn), g("/api/v1", 1, dyn), g("/api/v3", 0, dyn), g("/api/v2", 0, dyn1)},
+		[]refmodel.Stmt{g("/api", 0, g("/v1", 0, dyn), g("/v2", 0, dyn, dyn), g("/v1", 0, dyn)), g("/api/v2", 0, dyn)},
+	)
 	for _, k := range []int{1, 2, 3} {
 		out = append(out,
 			[]refmodel.Stmt{sh("/s1", k, route), g("/g", 0, use, route), sh("/s2", k, route)},
